@@ -20,10 +20,12 @@ _COMMON_NOTE = ('ASSUMED (never counted as proved, listed in evidence.trusted_ba
                 'pyvc/pandas_model.py), py_stringmatching tokenizers and measures (contracts/externals.py), joblib Parallel, pyprind. '
                 'BOUNDED stand-ins (exhaustive small scope + seeded random on the real code, evidence.bounded_standins): '
                 'gen_token_ordering_for_tables, order_using_token_ordering, PositionIndex.build, PositionFilter.find_candidates; '
-                'the lemma inj_image (injective ranks preserve intersection sizes) is assumed mathematics. '
-                'Scope so far: Jaccard / cosine / Dice joins (set_sim_join and the three *_join_py drivers); the overlap, '
-                'overlap-coefficient and edit-distance joins, the filter classes, filter_candset and apply_matcher are not yet under '
-                'contract. Cython twins are out of reach. Trusted: pyvc VC generator, z3/cvc5.')
+                'the lemma inj_image (injective ranks preserve intersection sizes) and two counting facts are assumed mathematics. '
+                'Scope: Jaccard / cosine / Dice joins (set_sim_join and the three *_join_py drivers), overlap_join_py with '
+                'InvertedIndex / OverlapFilter, SizeIndex / SizeFilter, Filter.filter_candset, apply_matcher. The overlap-coefficient '
+                'and edit-distance joins and the Prefix / Position / Suffix filter classes are not under contract (their part of the '
+                'property is not decided by this check). Row-level equality of the parallel (n_jobs > 1) result with the serial one '
+                'is not derived. Cython twins are out of reach. Trusted: pyvc VC generator, z3/cvc5.')
 
 CLAIMS.update({
     'C01': dict(
@@ -74,9 +76,48 @@ CLAIMS.update({
         technique=TECH, design_ref='DESIGN.md 4 (C15)'),
 })
 
+CLAIMS.update({
+    'C04': dict(
+        text='SizeFilter (JACCARD, COSINE, DICE) and OverlapFilter: filter_pair is proved never to drop a pair of present values whose '
+             'similarity meets the threshold (SizeFilter: exact window characterisation + the proved safety theorem of the size bounds; '
+             'OverlapFilter: exact), _filter_tables_split / filter_tables are proved to list every such pair (ghost origin maps, '
+             'inductive invariants over SizeIndex / InvertedIndex), and filter_candset is proved to keep exactly the rows filter_pair '
+             'does not drop.',
+        note=_COMMON_NOTE + ' PrefixFilter, PositionFilter, SuffixFilter and the EDIT_DISTANCE / OVERLAP modes of SizeFilter are NOT '
+             'covered by this check (SuffixFilter has the recorded finding D2 in DESIGN.md).',
+        technique=TECH, design_ref='DESIGN.md 4 (C04)'),
+    'C05': dict(
+        text='_apply_matcher_split is proved, for all six operators, with and without tokenizer, with and without token cache, to '
+             'return exactly the candidate rows (original order: ghost source map strictly increasing and complete; original _id) for '
+             'which sim_function(values or their token lists) comp_op threshold holds, missing pairs kept iff allow_missing with NaN score, '
+             '_sim_score the value returned by sim_function; the cached and the direct tokenisation cases have the same postcondition. '
+             'apply_matcher is proved to validate (exact exceptional contract), to return an empty candset as is, and on the serial path '
+             'to return the split result for the projected tables; on the parallel path every chunk call meets the split precondition '
+             'and pd.concat gets equal headers.',
+        note=_COMMON_NOTE + ' generate_tokens is an ASSUMED contract (pandas apply/zip/dict); sim_function is an uninterpreted deterministic '
+             'function; pickling of instance methods (utils/pickle.py) is outside any contract.',
+        technique=TECH, design_ref='DESIGN.md 4 (C05)'),
+    'C06': dict(
+        text='_filter_candset_split / Filter.filter_candset are proved, for an abstract filter, to return exactly the sub-table '
+             '(same columns, row order, index labels) of the rows whose referenced values filter_pair does not drop. OverlapFilter: '
+             'filter_pair keeps a pair iff both token lists are non-empty and overlap comp_op overlap_size; _filter_tables_split and '
+             'filter_tables list exactly those pairs, with the overlap as _sim_score.',
+        note=_COMMON_NOTE + ' The abstract filter_pair is assumed deterministic in (filter object, two values).',
+        technique=TECH, design_ref='DESIGN.md 4 (C06)'),
+    'C14': dict(
+        text='SizeFilter (set measures): filter_pair and filter_tables are proved to decide exactly by the size window '
+             '[lb(x), ub(x)] of the two token counts (a function of the counts alone); OverlapFilter is proved to keep only pairs '
+             'with overlap comp_op overlap_size (hence a common token for overlap_size >= 1). Tightness of the window (no admitted '
+             'pair of counts has its best attainable similarity more than 1e-4 below the threshold) is a BOUNDED check on the real '
+             'get_size_lower_bound / get_size_upper_bound (all counts < 60 / 200, ~900 thresholds, seeded random), never counted as proved.',
+        note=_COMMON_NOTE + ' Known finding D11 (COSINE thresholds below 0.00707 admit an empty right value) is recorded. PrefixFilter / '
+             'PositionFilter (no-common-token and subset claims) and SizeFilter under EDIT_DISTANCE are NOT covered by this check.',
+        technique=TECH + '; window tightness: bounded exhaustive check', design_ref='DESIGN.md 4 (C14)'),
+})
+
 _PENDING = 'check not registered yet in this session (contracts under construction); not claimed'
 NOT_APPLICABLE = dict((p, _PENDING) for p in
-                      ['C03', 'C04', 'C05', 'C06', 'C07', 'C13', 'C14'])
+                      ['C03', 'C07', 'C13'])
 NOT_APPLICABLE['C16'] = ('converter.py is a dtype dispatch whose whole observable behaviour is pandas semantics '
                          '(astype(str), Series.update, copy); a contract proof would consist of assumed pandas contracts only '
                          'and cannot decide the property (DESIGN.md 5)')
